@@ -587,6 +587,63 @@ def check_failing(ck, case, rng, parallel):
                      {"case": c2, "parallel": parallel, "step": "after-failing"})
 
 
+# ------------------------------------------------------------------ state outside the copied processor
+def check_load_image(ck, rng, parallel):
+    """pipelines with the built-in `load_image` (cached file read, scale ≠ 1): every run of two successive observations
+    must give image · multiplier · time_step / time_scale — the value a standalone exposure gives — whatever runs came
+    before (state could survive in the process-wide image cache, not in the copied processor)"""
+    import dask
+    import numpy as np
+    import pyx
+    import pyxel
+    from pyxel.observation import Observation, ParameterValues
+
+    tmp = tempfile.mkdtemp(prefix="verif-c06-img-")
+    cwd = os.getcwd()
+    try:
+        os.chdir(tmp)
+        img = np.array([[float(rng.randrange(1, 64)) for _ in range(4)] for _ in range(3)])
+        np.save(tmp + "/image.npy", img)
+        time_scale = rng.choice([1.0, 0.5, 2.0])
+        mults = rng.sample([2.0, 0.5, 3.0, 4.0, 1.5], rng.choice([2, 3, 4]))
+        other = rng.sample(range(1, 30), rng.choice([1, 2]))
+        case = {"load_image": {"image": img.tolist(), "time_scale": time_scale, "multipliers": mults, "other": other}}
+
+        def objs():
+            return pyx.make_detector("CCD", 3, 4), pyx.make_pipeline({
+                "photon_collection": [
+                    {"name": "load_image", "func": "pyxel.models.photon_collection.load_image",
+                     "arguments": {"image_file": tmp + "/image.npy", "convert_to_photons": False, "multiplier": 7.0,
+                                   "time_scale": time_scale}},
+                    {"name": "p", "func": "obsprobes.stamp", "arguments": {"slot": 0, "a": 0}}],
+                "charge_collection": [{"name": "show", "func": "obsprobes.photon_to_pixel", "arguments": {}}]})
+
+        det, pipe = objs()
+        for step, ms in enumerate([mults, list(reversed(mults))[: max(1, len(mults) - 1)], mults]):
+            obs = Observation(parameters=[
+                ParameterValues(key="pipeline.photon_collection.load_image.arguments.multiplier", values=list(ms)),
+                ParameterValues(key="pipeline.photon_collection.p.arguments.a", values=list(other))],
+                mode=rng.choice(["product", "sequential"]), with_dask=parallel)
+            with dask.config.set(scheduler="threads" if parallel else "synchronous", num_workers=3):
+                dt = pyxel.run_mode(mode=obs, detector=det, pipeline=pipe, with_inherited_coords=True)
+                res = c05.extract_entries(c05.find_bucket(dt), 12)
+            ck.case({"case": case, "parallel": parallel, "step": step}, nontrivial=True, stream="load_image")
+            ck.count(f"load_image:{'dask' if parallel else 'seq'}:observation{step}")
+            for e in res["entries"]:
+                m = c05._decanon(e["labels"]["multiplier"])  # noqa: SLF001
+                want = [c05.num(x) for x in (img * (1.0 / time_scale) * m).reshape(-1)]
+                if e["data"] != want:
+                    ck.violation(f"C06:run-differs-from-standalone:load_image:{'dask' if parallel else 'seq'}",
+                                 f"observation #{step + 1}, run labelled multiplier={m}: photon[0,0] = {c05._decanon({'f': e['data'][0]})} "  # noqa: SLF001
+                                 f"but a standalone exposure gives image·multiplier/time_scale = {img[0, 0] * m / time_scale} "
+                                 "(the result depends on which runs loaded the image before)",
+                                 {"case": case, "parallel": parallel, "step": step})
+                    return
+    finally:
+        os.chdir(cwd)
+        shutil.rmtree(tmp, ignore_errors=True)
+
+
 # ------------------------------------------------------------------ calibration
 def check_calibration(ck, rng):
     import numpy as np
@@ -734,6 +791,8 @@ def body(ck: common.Check):
             ck.count(f"stateful={k}")
     for i in range(6 if quick else 40):
         check_readout_sweep(ck, rng, parallel=bool(i % 2))
+    for i in range(2 if quick else 16):
+        check_load_image(ck, rng, parallel=bool(i % 2))
     for _ in range(1 if quick else 6):
         check_calibration(ck, rng)
     ck.rule = ("configurations from C05's generator (three modes, vector values, colliding names) with probes that count "
@@ -745,7 +804,8 @@ def body(ck: common.Check):
                "same Observation object reused on the same objects, on a reconfigured detector / pipeline, and again on the first "
                "ones; permuted / shortened value lists — around a failing observation, around sweeps over observation.readout.* "
                "keys, and around a calibration; (c) every run against an independently built "
-               "standalone exposure; sequential path and dask path (4 threads)")
+               "standalone exposure; pipelines with the built-in load_image (cached file, multiplier / time_scale ≠ 1) over three "
+               "successive observations; sequential path and dask path (3-4 threads)")
     ck.assumptions = [
         "PARTIAL: the theorem is conditional on Sep (copy and original share no object with mutable state); Sep is established "
         "per generated configuration by walking the real object graphs, not for all configurations",
@@ -763,6 +823,14 @@ def replay(path):
 
     rp = json.load(open(path))
     r = rp["replay"]
+    if "load_image" in (r.get("case") or {}):
+        import random
+
+        ck = common.Check("C06", "quick")
+        for seed in range(4):  # the failing input class (cached image, scale ≠ 1) does not depend on the drawn numbers
+            check_load_image(ck, random.Random(seed), r.get("parallel", False))
+        print("REPRODUCED: " + ck.violations[0]["what"] if ck.violations else "not reproduced (property holds on this input)")
+        return 1 if ck.violations else 0
     if "readout_sweep" in r:
         ck = common.Check("C06", "quick")
         rs = r["readout_sweep"]
